@@ -898,6 +898,12 @@ def search(ctx, np, util, config, sf_actual, icases=()):
     pay["sph"] = (hdr + b" " * (1024 - len(hdr)) + a16.astype("<i2").tobytes("C"), a16)
     hdrbe = hdr.replace(b"sample_byte_format -s2 01", b"sample_byte_format -s2 10")
     pay["sph-be"] = (hdrbe + b" " * (1024 - len(hdrbe)) + a16.astype(">i2").tobytes("C"), a16)
+    # a header of 3072 bytes whose fields (speaker and session notes, as the corpora carry them) run past the first 1024
+    notes = "".join("note_%03d -s40 %s\n" % (k, ("session remark %03d " % k).ljust(40, "x")) for k in range(30))
+    hdrl = ("NIST_1A\n   3072\n" + notes + "channel_count -i 2\nsample_count -i 20\nsample_rate -i 8000\nsample_n_bytes -i 2\n"
+            "sample_byte_format -s2 01\nsample_coding -s3 pcm\nend_head\n").encode()
+    assert 1024 < len(hdrl) < 3072
+    pay["sph-long-header"] = (hdrl + b" " * (3072 - len(hdrl)) + a16.astype("<i2").tobytes("C"), a16)
     a8 = np.array([0, 1, 127, 128, 200, 255, 64, 129], dtype=np.uint8)
     hdr8 = ("NIST_1A\n   1024\nchannel_count -i 1\nsample_count -i 8\nsample_rate -i 8000\nsample_n_bytes -i 1\n"
             "sample_byte_format -s1 1\nsample_coding -s3 pcm\nend_head\n").encode()
@@ -905,7 +911,7 @@ def search(ctx, np, util, config, sf_actual, icases=()):
     tb = io.BytesIO()
     torch.save(torch.from_numpy(a16.copy()), tb)
     pay["pt"] = (tb.getvalue(), a16)
-    for cont, fa_ok in (("npy", "npy"), ("wav", "wav"), ("sph", "sph"), ("sph-be", "sph"), ("sph8", "sph"), ("pt", "pt")):
+    for cont, fa_ok in (("npy", "npy"), ("wav", "wav"), ("sph", "sph"), ("sph-be", "sph"), ("sph-long-header", "sph"), ("sph8", "sph"), ("pt", "pt")):
         payload, want = pay[cont]
         for fa in (None, fa_ok):
             for sname, st in streams(payload):
